@@ -123,6 +123,9 @@ class Truthy:
             return self.d(g, e.value)
         if isinstance(e, ast.Call):
             f = e.func
+            if isinstance(f, ast.Name) and f.id == "next" and e.args:
+                # an item pulled from an iterable that is turned into stream elements (from_iterable, zip_with_iterable, range)
+                return 0
             if isinstance(f, ast.Attribute):
                 b = self.d(g, f.value)
                 if b is not None and b >= 1:
